@@ -31,12 +31,20 @@ func genC04(o *hx.Out, tier string) {
 		if tier == "thorough" {
 			nv = 40
 		}
+		var held *message.MessageRaw // what an earlier Write returned: the caller may keep it
+		var heldMsg message.Message
+		heldV2 := false
 		for k := 0; k < nv; k++ {
 			m := hx.RandMessage(r, proto, 2)
 			for _, v2 := range []bool{true, false} {
 				raw := mrw.Write(m, v2)
 				o.Add("encode", "ok "+hx.Hex(raw.Payload), "mwrite", gs, b2s(v2), hx.Value(m))
 				o.Add("roundtrip", implReadMsg(mrw, raw.Payload, v2), "mread", gs, b2s(v2), hx.Hex(raw.Payload))
+				if held != nil {
+					// the result of the previous Write, looked at again after this Write and this Read
+					o.Add("encode, result kept across the next calls", "ok "+hx.Hex(held.Payload), "mwrite", gs, b2s(heldV2), hx.Value(heldMsg))
+				}
+				held, heldMsg, heldV2 = raw, m, v2
 			}
 		}
 		// every payload length (sampled types in quick; boundary lengths for all)
